@@ -1,2 +1,626 @@
-(* Proofs for C12. *)
-From WI Require Import Lib.Base Lib.Info Model.PgpKey.
+(* Proofs for C12 (and the framing lemmas shared with C11).  No axioms; standard library only. *)
+From WI Require Import Lib.Base Lib.Info Lib.Time Lib.Sha1 gen.PgpTables Model.PgpKey.
+From Coq Require Import List NArith ZArith Lia Bool.
+From Coq Require Import ZifyN ZifyNat ZifyBool.
+Import ListNotations.
+Open Scope N_scope.
+Local Ltac Zify.zify_post_hook ::= Z.div_mod_to_equations.
+
+(* ------------------------------------------------------------------ *)
+(* lists                                                               *)
+(* ------------------------------------------------------------------ *)
+Lemma take_drop : forall {A} n (l : list A), take n l ++ drop n l = l.
+Proof. induction n; destruct l; simpl; auto. now rewrite IHn. Qed.
+
+Lemma take_length : forall {A} n (l : list A), (n <= length l)%nat -> length (take n l) = n.
+Proof. induction n; destruct l; simpl; intros; auto; try lia. rewrite IHn; lia. Qed.
+
+Lemma drop_length : forall {A} n (l : list A), length (drop n l) = (length l - n)%nat.
+Proof. induction n; destruct l; simpl; auto. Qed.
+
+Lemma take_all : forall {A} n (l : list A), (length l <= n)%nat -> take n l = l.
+Proof. induction n; destruct l; simpl; intros; auto; try lia. rewrite IHn; auto; lia. Qed.
+
+Lemma take_app_exact : forall {A} (a b : list A), take (length a) (a ++ b) = a.
+Proof. induction a; simpl; intros; auto. now rewrite IHa. Qed.
+
+Lemma drop_app_exact : forall {A} (a b : list A), drop (length a) (a ++ b) = b.
+Proof. induction a; simpl; intros; auto. Qed.
+
+Lemma bytes_ok_app : forall a b, bytes_ok (a ++ b) = bytes_ok a && bytes_ok b.
+Proof. intros. unfold bytes_ok. apply forallb_app. Qed.
+
+Lemma bytes_ok_cons : forall x l, bytes_ok (x :: l) = true -> x < 256 /\ bytes_ok l = true.
+Proof. unfold bytes_ok, byte_ok. simpl. intros x l H. apply andb_true_iff in H. destruct H. split; auto. lia. Qed.
+
+Lemma bytes_eqb_eq : forall a b, bytes_eqb a b = true <-> a = b.
+Proof.
+  induction a; destruct b; simpl; split; intros H; auto; try discriminate.
+  - apply andb_true_iff in H. destruct H as [H1 H2]. apply N.eqb_eq in H1. apply IHa in H2. now subst.
+  - inversion H; subst. rewrite N.eqb_refl. simpl. now apply IHa.
+Qed.
+
+(* ------------------------------------------------------------------ *)
+(* big-endian numbers                                                  *)
+(* ------------------------------------------------------------------ *)
+Lemma N_to_be_length : forall w n, length (N_to_be w n) = w.
+Proof. induction w; simpl; intros; auto. rewrite app_length, IHw. simpl. lia. Qed.
+
+Lemma N_to_be_snoc : forall w x b, b < 256 -> N_to_be (S w) (x * 256 + b) = N_to_be w x ++ [b].
+Proof.
+  intros. simpl. f_equal.
+  - f_equal. rewrite N.div_add_l by lia. rewrite N.div_small by lia. lia.
+  - f_equal. rewrite N.add_comm, N.mod_add by lia. apply N.mod_small. lia.
+Qed.
+
+Lemma be16_bytes : forall a b, a < 256 -> b < 256 -> be16 (a * 256 + b) = [a; b].
+Proof.
+  intros. unfold be16. rewrite N_to_be_snoc by auto.
+  replace a with (0 * 256 + a) at 1 by lia. rewrite N_to_be_snoc by auto. reflexivity.
+Qed.
+
+Lemma be32_bytes : forall a b c d, a < 256 -> b < 256 -> c < 256 -> d < 256 ->
+  be32 (((a * 256 + b) * 256 + c) * 256 + d) = [a; b; c; d].
+Proof.
+  intros. unfold be32. rewrite !N_to_be_snoc by auto.
+  replace a with (0 * 256 + a) at 1 by lia. rewrite N_to_be_snoc by auto. reflexivity.
+Qed.
+
+Lemma N_to_be_inj : forall w a b, a < 256 ^ N.of_nat w -> b < 256 ^ N.of_nat w ->
+  N_to_be w a = N_to_be w b -> a = b.
+Proof.
+  induction w; intros a b Ha Hb H.
+  - simpl in *. lia.
+  - simpl in H. apply app_inj_tail in H. destruct H as [H1 H2].
+    replace (N.of_nat (S w)) with (N.succ (N.of_nat w)) in * by lia.
+    rewrite N.pow_succ_r' in *.
+    assert (a / 256 = b / 256).
+    { apply IHw; auto.
+      - apply N.div_lt_upper_bound; lia.
+      - apply N.div_lt_upper_bound; lia. }
+    rewrite (N.div_mod a 256), (N.div_mod b 256) by lia. congruence.
+Qed.
+
+Lemma be_to_N_acc_app : forall a b acc,
+  be_to_N_acc acc (a ++ b) = be_to_N_acc (be_to_N_acc acc a) b.
+Proof. induction a; simpl; intros; auto. Qed.
+
+Lemma be_to_N_acc_shift : forall b acc, be_to_N_acc acc b = acc * 256 ^ N.of_nat (length b) + be_to_N_acc 0 b.
+Proof.
+  induction b; intros acc.
+  - simpl. lia.
+  - cbn [be_to_N_acc length]. rewrite IHb. rewrite (IHb (0 * 256 + a)).
+    replace (N.of_nat (S (length b))) with (N.succ (N.of_nat (length b))) by lia.
+    rewrite N.pow_succ_r'. lia.
+Qed.
+
+Lemma be_to_N_app : forall a b, be_to_N (a ++ b) = be_to_N a * 256 ^ N.of_nat (length b) + be_to_N b.
+Proof. intros. unfold be_to_N. rewrite be_to_N_acc_app. apply be_to_N_acc_shift. Qed.
+
+Lemma be_to_N_bound : forall b, bytes_ok b = true -> be_to_N b < 256 ^ N.of_nat (length b).
+Proof.
+  induction b; intros H.
+  - cbn. lia.
+  - apply bytes_ok_cons in H. destruct H as [Ha Hb]. specialize (IHb Hb).
+    change (a :: b) with ([a] ++ b). rewrite be_to_N_app.
+    replace (be_to_N [a]) with a by (cbn; lia).
+    replace (N.of_nat (length ([a] ++ b))) with (N.succ (N.of_nat (length b))) by (simpl; lia).
+    rewrite N.pow_succ_r'. nia.
+Qed.
+
+(* ------------------------------------------------------------------ *)
+(* C12_mpi_exact: reading then writing an MPI gives back exactly the octets consumed,
+   leading zero bits and octets included                               *)
+(* ------------------------------------------------------------------ *)
+Lemma read_n_spec : forall n l a r, read_n n l = Some (a, r) -> a ++ r = l /\ lenN a = n.
+Proof.
+  unfold read_n, lenN. intros n l a r H.
+  destruct (n <=? N.of_nat (length l)) eqn:E; [|discriminate].
+  inversion H; subst. split.
+  - apply take_drop.
+  - rewrite take_length; lia.
+Qed.
+
+Lemma mpi_exact : forall l m rest, bytes_ok l = true ->
+  mpi_read l = Ok (m, rest) -> mpi_write m ++ rest = l.
+Proof.
+  intros l m rest Hok H. unfold mpi_read in H.
+  destruct l as [|b0 [|b1 r]]; try discriminate.
+  destruct (read_n ((b0 * 256 + b1 + 7) / 8) r) as [[v rest']|] eqn:E; [|discriminate].
+  inversion H; subst. apply read_n_spec in E. destruct E as [E _].
+  apply bytes_ok_cons in Hok. destruct Hok as [H0 Hok]. apply bytes_ok_cons in Hok. destruct Hok as [H1 _].
+  unfold mpi_write. cbn [m_bits m_bytes].
+  replace ((b0 * 256 + b1) / 256 mod 256) with b0.
+  2:{ rewrite N.div_add_l by lia. rewrite (N.div_small b1) by lia. rewrite N.add_0_r. symmetry. apply N.mod_small. lia. }
+  replace ((b0 * 256 + b1) mod 256) with b1.
+  2:{ rewrite N.add_comm, N.mod_add by lia. symmetry. apply N.mod_small. lia. }
+  simpl. now rewrite E.
+Qed.
+
+Lemma mpi_read_ok_tail : forall l m rest, bytes_ok l = true -> mpi_read l = Ok (m, rest) -> bytes_ok rest = true.
+Proof.
+  intros l m rest Hok H. pose proof (mpi_exact _ _ _ Hok H) as E. rewrite <- E in Hok.
+  rewrite bytes_ok_app in Hok. apply andb_true_iff in Hok. tauto.
+Qed.
+
+(* the declared bit length decides the number of content octets (<= 8192) *)
+Lemma mpi_read_length : forall l m rest, bytes_ok l = true -> mpi_read l = Ok (m, rest) ->
+  lenN (m_bytes m) = (m_bits m + 7) / 8 /\ m_bits m < 65536.
+Proof.
+  intros l m rest Hok H. unfold mpi_read in H.
+  destruct l as [|b0 [|b1 r]]; try discriminate.
+  destruct (read_n ((b0 * 256 + b1 + 7) / 8) r) as [[v rest']|] eqn:E; [|discriminate].
+  inversion H; subst. apply read_n_spec in E. destruct E as [_ E].
+  apply bytes_ok_cons in Hok. destruct Hok as [H0 Hok]. apply bytes_ok_cons in Hok. destruct Hok as [H1 _].
+  cbn [m_bits m_bytes]. split; [exact E | lia].
+Qed.
+
+(* ------------------------------------------------------------------ *)
+(* re-serialisation of a parsed key is the input                       *)
+(* ------------------------------------------------------------------ *)
+Lemma parse_oid_exact : forall l oid rest, parse_oid l = Ok (oid, rest) -> oid_field oid ++ rest = l.
+Proof.
+  unfold parse_oid. intros l oid rest H. destruct l as [|n r]; [discriminate|].
+  destruct (pgp_max_oid_len <? n); [discriminate|].
+  destruct (read_n n r) as [[o rest']|] eqn:E; [|discriminate].
+  inversion H; subst. apply read_n_spec in E. destruct E as [E1 E2].
+  unfold oid_field. rewrite E2. simpl. now rewrite E1.
+Qed.
+
+Lemma parse_kdf_exact : forall c l kdf rest, fixkdf c = true ->
+  parse_kdf c l = Ok (kdf, rest) -> kdf ++ rest = l.
+Proof.
+  unfold parse_kdf. intros c l kdf rest Hc H. destruct l as [|n r]; [discriminate|].
+  destruct (n <? 3); [discriminate|].
+  destruct (read_n n r) as [[b rest']|] eqn:E; [|discriminate].
+  destruct (negb (nth 0 b 0 =? 1)); [discriminate|].
+  rewrite Hc in H. inversion H; subst. apply read_n_spec in E. destruct E as [E1 _].
+  simpl. now rewrite E1.
+Qed.
+
+Ltac ok_tail H Hok :=
+  let T := fresh "Hok" in
+  pose proof (mpi_read_ok_tail _ _ _ Hok H) as T.
+
+Lemma bind_ok : forall {A B} (r : result A) (f : A -> result B) b,
+  bind r f = Ok b -> exists a, r = Ok a /\ f a = Ok b.
+Proof. intros A B r f b H. destruct r; simpl in H; try discriminate. eauto. Qed.
+
+Lemma parse_keymat_exact : forall c ecok algo l m rest, fixkdf c = true -> bytes_ok l = true ->
+  parse_keymat c ecok algo l = Ok (m, rest) -> mat_bytes m ++ rest = l.
+Proof.
+  intros c ecok algo l m rest Hc Hok H. unfold parse_keymat in H.
+  destruct ((algo =? 1) || (algo =? 2) || (algo =? 3)).
+  { apply bind_ok in H. destruct H as [[n l1] [E1 H]].
+    apply bind_ok in H. destruct H as [[e l2] [E2 H]].
+    destruct (3 <? lenN (m_bytes e)); [discriminate|]. inversion H; subst.
+    pose proof (mpi_read_ok_tail _ _ _ Hok E1) as Hok1.
+    cbn [mat_bytes]. rewrite <- app_assoc. rewrite (mpi_exact _ _ _ Hok1 E2). apply (mpi_exact _ _ _ Hok E1). }
+  destruct (algo =? 17).
+  { apply bind_ok in H. destruct H as [[p l1] [E1 H]].
+    apply bind_ok in H. destruct H as [[q l2] [E2 H]].
+    apply bind_ok in H. destruct H as [[g l3] [E3 H]].
+    apply bind_ok in H. destruct H as [[y l4] [E4 H]].
+    inversion H; subst.
+    pose proof (mpi_read_ok_tail _ _ _ Hok E1) as Hok1.
+    pose proof (mpi_read_ok_tail _ _ _ Hok1 E2) as Hok2.
+    pose proof (mpi_read_ok_tail _ _ _ Hok2 E3) as Hok3.
+    cbn [mat_bytes]. rewrite <- !app_assoc.
+    rewrite (mpi_exact _ _ _ Hok3 E4), (mpi_exact _ _ _ Hok2 E3), (mpi_exact _ _ _ Hok1 E2).
+    apply (mpi_exact _ _ _ Hok E1). }
+  destruct (algo =? 16).
+  { apply bind_ok in H. destruct H as [[p l1] [E1 H]].
+    apply bind_ok in H. destruct H as [[g l2] [E2 H]].
+    apply bind_ok in H. destruct H as [[y l3] [E3 H]].
+    inversion H; subst.
+    pose proof (mpi_read_ok_tail _ _ _ Hok E1) as Hok1.
+    pose proof (mpi_read_ok_tail _ _ _ Hok1 E2) as Hok2.
+    cbn [mat_bytes]. rewrite <- !app_assoc.
+    rewrite (mpi_exact _ _ _ Hok2 E3), (mpi_exact _ _ _ Hok1 E2).
+    apply (mpi_exact _ _ _ Hok E1). }
+  destruct (algo =? 19).
+  { apply bind_ok in H. destruct H as [[oid l1] [E1 H]].
+    apply bind_ok in H. destruct H as [[pt l2] [E2 H]].
+    apply bind_ok in H. destruct H as [u [_ H]].
+    inversion H; subst.
+    pose proof (parse_oid_exact _ _ _ E1) as X1. rewrite <- X1 in Hok.
+    rewrite bytes_ok_app in Hok. apply andb_true_iff in Hok. destruct Hok as [_ Hok1].
+    cbn [mat_bytes]. rewrite <- app_assoc. rewrite (mpi_exact _ _ _ Hok1 E2). exact X1. }
+  destruct (algo =? 18).
+  { apply bind_ok in H. destruct H as [[oid l1] [E1 H]].
+    apply bind_ok in H. destruct H as [[pt l2] [E2 H]].
+    apply bind_ok in H. destruct H as [[kdf l3] [E3 H]].
+    apply bind_ok in H. destruct H as [u [_ H]].
+    inversion H; subst.
+    pose proof (parse_oid_exact _ _ _ E1) as X1. rewrite <- X1 in Hok.
+    rewrite bytes_ok_app in Hok. apply andb_true_iff in Hok. destruct Hok as [_ Hok1].
+    cbn [mat_bytes]. rewrite <- !app_assoc. rewrite (parse_kdf_exact _ _ _ _ Hc E3).
+    rewrite (mpi_exact _ _ _ Hok1 E2). exact X1. }
+  destruct (algo =? 22).
+  { apply bind_ok in H. destruct H as [[oid l1] [E1 H]].
+    apply bind_ok in H. destruct H as [[pt l2] [E2 H]].
+    apply bind_ok in H. destruct H as [u [_ H]].
+    inversion H; subst.
+    pose proof (parse_oid_exact _ _ _ E1) as X1. rewrite <- X1 in Hok.
+    rewrite bytes_ok_app in Hok. apply andb_true_iff in Hok. destruct Hok as [_ Hok1].
+    cbn [mat_bytes]. rewrite <- app_assoc. rewrite (mpi_exact _ _ _ Hok1 E2). exact X1. }
+  discriminate.
+Qed.
+
+(* C11_reserialise_exact *)
+Theorem parse_public_key_exact : forall c ecok l k rest, fixkdf c = true -> bytes_ok l = true ->
+  parse_public_key c ecok l = Ok (k, rest) -> key_body k ++ rest = l.
+Proof.
+  intros c ecok l k rest Hc Hok H. unfold parse_public_key in H.
+  destruct l as [|v [|t0 [|t1 [|t2 [|t3 [|algo r]]]]]]; try discriminate.
+  destruct (negb (v =? 4)) eqn:Ev; [discriminate|].
+  apply bind_ok in H. destruct H as [[m rest'] [E H]]. inversion H; subst.
+  apply negb_false_iff, N.eqb_eq in Ev. subst v.
+  apply bytes_ok_cons in Hok. destruct Hok as [_ Hok].
+  apply bytes_ok_cons in Hok. destruct Hok as [H0 Hok].
+  apply bytes_ok_cons in Hok. destruct Hok as [H1 Hok].
+  apply bytes_ok_cons in Hok. destruct Hok as [H2 Hok].
+  apply bytes_ok_cons in Hok. destruct Hok as [H3 Hok].
+  apply bytes_ok_cons in Hok. destruct Hok as [Ha Hok].
+  unfold key_body. cbn [pk_created pk_algo pk_mat].
+  rewrite be32_bytes by auto. simpl. do 6 f_equal.
+  apply (parse_keymat_exact _ _ _ _ _ _ Hc Hok E).
+Qed.
+
+(* ------------------------------------------------------------------ *)
+(* C12_fingerprint                                                     *)
+(* ------------------------------------------------------------------ *)
+Theorem fingerprint_exact : forall c ecok H body k, fixkdf c = true -> bytes_ok body = true ->
+  parse_public_key c ecok body = Ok (k, []) ->
+  key_hash_input k = 153 :: be16 (lenN body) ++ body /\
+  fingerprint H k = H (153 :: be16 (lenN body) ++ body).
+Proof.
+  intros c ecok H body k Hc Hok P.
+  pose proof (parse_public_key_exact _ _ _ _ _ Hc Hok P) as E. rewrite app_nil_r in E.
+  unfold fingerprint, key_hash_input. rewrite E. auto.
+Qed.
+
+(* the length field never wraps: a parsed key body is shorter than 2^16 octets *)
+Lemma mpi_write_length : forall l m rest, bytes_ok l = true -> mpi_read l = Ok (m, rest) ->
+  lenN (mpi_write m) <= 8194.
+Proof.
+  intros l m rest Hok H. destruct (mpi_read_length _ _ _ Hok H) as [E B].
+  unfold mpi_write, lenN in *. rewrite app_length. simpl length. lia.
+Qed.
+
+Lemma lenN_app : forall a b, lenN (a ++ b) = lenN a + lenN b.
+Proof. intros. unfold lenN. rewrite app_length. lia. Qed.
+
+Lemma parse_oid_length : forall l oid rest, parse_oid l = Ok (oid, rest) -> lenN (oid_field oid) <= 11.
+Proof.
+  unfold parse_oid. intros l oid rest H. destruct l as [|n r]; [discriminate|].
+  destruct (pgp_max_oid_len <? n) eqn:En; [discriminate|].
+  destruct (read_n n r) as [[o rest']|] eqn:E; [|discriminate].
+  inversion H; subst. apply read_n_spec in E. destruct E as [_ E].
+  unfold oid_field, lenN in *. simpl length. unfold pgp_max_oid_len in En. lia.
+Qed.
+
+Lemma parse_kdf_length : forall c l kdf rest, bytes_ok l = true -> parse_kdf c l = Ok (kdf, rest) -> lenN kdf <= 256.
+Proof.
+  unfold parse_kdf. intros c l kdf rest Hok H. destruct l as [|n r]; [discriminate|].
+  apply bytes_ok_cons in Hok. destruct Hok as [Hn _].
+  destruct (n <? 3); [discriminate|].
+  destruct (read_n n r) as [[b rest']|] eqn:E; [|discriminate].
+  destruct (negb (nth 0 b 0 =? 1)); [discriminate|].
+  apply read_n_spec in E. destruct E as [_ E].
+  destruct (fixkdf c); inversion H; subst; unfold lenN in *; simpl length; lia.
+Qed.
+
+Lemma parse_keymat_length : forall c ecok algo l m rest, bytes_ok l = true ->
+  parse_keymat c ecok algo l = Ok (m, rest) -> lenN (mat_bytes m) <= 32776.
+Proof.
+  intros c ecok algo l m rest Hok H. unfold parse_keymat in H.
+  destruct ((algo =? 1) || (algo =? 2) || (algo =? 3)).
+  { apply bind_ok in H. destruct H as [[n l1] [E1 H]].
+    apply bind_ok in H. destruct H as [[e l2] [E2 H]].
+    destruct (3 <? lenN (m_bytes e)); [discriminate|]. inversion H; subst.
+    pose proof (mpi_read_ok_tail _ _ _ Hok E1) as Hok1.
+    pose proof (mpi_write_length _ _ _ Hok E1). pose proof (mpi_write_length _ _ _ Hok1 E2).
+    cbn [mat_bytes]. rewrite !lenN_app. lia. }
+  destruct (algo =? 17).
+  { apply bind_ok in H. destruct H as [[p l1] [E1 H]].
+    apply bind_ok in H. destruct H as [[q l2] [E2 H]].
+    apply bind_ok in H. destruct H as [[g l3] [E3 H]].
+    apply bind_ok in H. destruct H as [[y l4] [E4 H]].
+    inversion H; subst.
+    pose proof (mpi_read_ok_tail _ _ _ Hok E1) as Hok1.
+    pose proof (mpi_read_ok_tail _ _ _ Hok1 E2) as Hok2.
+    pose proof (mpi_read_ok_tail _ _ _ Hok2 E3) as Hok3.
+    pose proof (mpi_write_length _ _ _ Hok E1). pose proof (mpi_write_length _ _ _ Hok1 E2).
+    pose proof (mpi_write_length _ _ _ Hok2 E3). pose proof (mpi_write_length _ _ _ Hok3 E4).
+    cbn [mat_bytes]. rewrite !lenN_app. lia. }
+  destruct (algo =? 16).
+  { apply bind_ok in H. destruct H as [[p l1] [E1 H]].
+    apply bind_ok in H. destruct H as [[g l2] [E2 H]].
+    apply bind_ok in H. destruct H as [[y l3] [E3 H]].
+    inversion H; subst.
+    pose proof (mpi_read_ok_tail _ _ _ Hok E1) as Hok1.
+    pose proof (mpi_read_ok_tail _ _ _ Hok1 E2) as Hok2.
+    pose proof (mpi_write_length _ _ _ Hok E1). pose proof (mpi_write_length _ _ _ Hok1 E2).
+    pose proof (mpi_write_length _ _ _ Hok2 E3).
+    cbn [mat_bytes]. rewrite !lenN_app. lia. }
+  destruct (algo =? 19).
+  { apply bind_ok in H. destruct H as [[oid l1] [E1 H]].
+    apply bind_ok in H. destruct H as [[pt l2] [E2 H]].
+    apply bind_ok in H. destruct H as [u [_ H]].
+    inversion H; subst.
+    pose proof (parse_oid_exact _ _ _ E1) as X1. rewrite <- X1 in Hok.
+    rewrite bytes_ok_app in Hok. apply andb_true_iff in Hok. destruct Hok as [_ Hok1].
+    pose proof (parse_oid_length _ _ _ E1). pose proof (mpi_write_length _ _ _ Hok1 E2).
+    cbn [mat_bytes]. rewrite !lenN_app. lia. }
+  destruct (algo =? 18).
+  { apply bind_ok in H. destruct H as [[oid l1] [E1 H]].
+    apply bind_ok in H. destruct H as [[pt l2] [E2 H]].
+    apply bind_ok in H. destruct H as [[kdf l3] [E3 H]].
+    apply bind_ok in H. destruct H as [u [_ H]].
+    inversion H; subst.
+    pose proof (parse_oid_exact _ _ _ E1) as X1. rewrite <- X1 in Hok.
+    rewrite bytes_ok_app in Hok. apply andb_true_iff in Hok. destruct Hok as [_ Hok1].
+    pose proof (mpi_read_ok_tail _ _ _ Hok1 E2) as Hok2.
+    pose proof (parse_oid_length _ _ _ E1). pose proof (mpi_write_length _ _ _ Hok1 E2).
+    pose proof (parse_kdf_length _ _ _ _ Hok2 E3).
+    cbn [mat_bytes]. rewrite !lenN_app. lia. }
+  destruct (algo =? 22).
+  { apply bind_ok in H. destruct H as [[oid l1] [E1 H]].
+    apply bind_ok in H. destruct H as [[pt l2] [E2 H]].
+    apply bind_ok in H. destruct H as [u [_ H]].
+    inversion H; subst.
+    pose proof (parse_oid_exact _ _ _ E1) as X1. rewrite <- X1 in Hok.
+    rewrite bytes_ok_app in Hok. apply andb_true_iff in Hok. destruct Hok as [_ Hok1].
+    pose proof (parse_oid_length _ _ _ E1). pose proof (mpi_write_length _ _ _ Hok1 E2).
+    cbn [mat_bytes]. rewrite !lenN_app. lia. }
+  discriminate.
+Qed.
+
+Theorem parsed_key_body_short : forall c ecok l k rest, bytes_ok l = true ->
+  parse_public_key c ecok l = Ok (k, rest) -> lenN (key_body k) < 65536.
+Proof.
+  intros c ecok l k rest Hok H. unfold parse_public_key in H.
+  destruct l as [|v [|t0 [|t1 [|t2 [|t3 [|algo r]]]]]]; try discriminate.
+  destruct (negb (v =? 4)); [discriminate|].
+  apply bind_ok in H. destruct H as [[m rest'] [E H]]. inversion H; subst.
+  assert (Hr : bytes_ok r = true).
+  { do 6 (apply bytes_ok_cons in Hok; destruct Hok as [_ Hok]). exact Hok. }
+  pose proof (parse_keymat_length _ _ _ _ _ _ Hr E) as L.
+  unfold key_body. cbn [pk_created pk_algo pk_mat].
+  change (4 :: be32 (((t0 * 256 + t1) * 256 + t2) * 256 + t3) ++ [algo] ++ mat_bytes m)
+    with ([4] ++ be32 (((t0 * 256 + t1) * 256 + t2) * 256 + t3) ++ [algo] ++ mat_bytes m).
+  rewrite !lenN_app. unfold be32. unfold lenN at 2. rewrite N_to_be_length.
+  change (lenN [4]) with 1. change (lenN [algo]) with 1. lia.
+Qed.
+
+(* ------------------------------------------------------------------ *)
+(* C12_key_id: the key ID is the low 64 bits of the fingerprint        *)
+(* ------------------------------------------------------------------ *)
+Lemma drop_12_of_20 : forall (fp : bytes), length fp = 20%nat ->
+  take 8 (drop 12 fp) = drop 12 fp /\ length (drop 12 fp) = 8%nat /\ fp = take 12 fp ++ drop 12 fp.
+Proof.
+  intros fp L. assert (L8 : length (drop 12 fp) = 8%nat) by (rewrite drop_length; lia).
+  split; [|split]; auto.
+  - apply take_all. lia.
+  - symmetry. apply take_drop.
+Qed.
+
+Theorem key_id_low64 : forall fp, length fp = 20%nat -> bytes_ok fp = true ->
+  key_id_of_fp fp = be_to_N fp mod 2 ^ 64 /\
+  key_id_string_of_fp fp = hex_of true (drop 12 fp) /\
+  length (key_id_string_of_fp fp) = 16%nat.
+Proof.
+  intros fp L Hok. destruct (drop_12_of_20 fp L) as (E1 & L8 & E2).
+  unfold key_id_of_fp, key_id_string_of_fp. rewrite E1. split; [|split]; auto.
+  - rewrite E2 at 2. rewrite be_to_N_app. rewrite L8.
+    change (256 ^ N.of_nat 8) with (2 ^ 64).
+    rewrite N.add_comm, N.mod_add by lia. symmetry. apply N.mod_small.
+    assert (B : bytes_ok (drop 12 fp) = true).
+    { rewrite E2 in Hok. rewrite bytes_ok_app in Hok. apply andb_true_iff in Hok. tauto. }
+    pose proof (be_to_N_bound _ B) as Hb. rewrite L8 in Hb. exact Hb.
+  - unfold hex_of. remember (drop 12 fp) as t. clear -L8.
+    do 9 (destruct t as [|? t]; try discriminate). reflexivity.
+Qed.
+
+(* ------------------------------------------------------------------ *)
+(* C12_size                                                            *)
+(* ------------------------------------------------------------------ *)
+Definition modulus (k : pubkey) : option mpi :=
+  match pk_mat k with
+  | KRSA n _ => Some n
+  | KDSA p _ _ _ => Some p
+  | KElGamal p _ _ => Some p
+  | _ => None
+  end.
+
+Theorem size_attr : forall H k,
+  match modulus k with
+  | Some n =>
+      In (bs "Size", dec_of_N (m_bits n) ++ bs " bits") (describe_key H k) /\
+      (mpi_wellformed n = true -> m_bits n = bitlen (mpi_value n))
+  | None => forall v, ~ In (bs "Size", v) (describe_key H k)
+  end.
+Proof.
+  intros H k. unfold modulus, describe_key, bit_length, curve_attr.
+  destruct (pk_mat k) eqn:E; simpl.
+  1-3: split; [ intuition | unfold mpi_wellformed; intros W; now apply N.eqb_eq in W ].
+  - intros v. destruct (nist_curve_name oid); simpl; intros [X|[X|[X|X]]]; try discriminate; try tauto.
+    destruct X as [X|X]; try discriminate; tauto.
+  - intros v. destruct (nist_curve_name oid); simpl; intros [X|[X|[X|X]]]; try discriminate; try tauto.
+    destruct X as [X|X]; try discriminate; tauto.
+  - intros v. simpl. intros [X|[X|[X|[X|X]]]]; try discriminate; tauto.
+Qed.
+
+(* ------------------------------------------------------------------ *)
+(* C12_usage: all 256 flag octets                                      *)
+(* ------------------------------------------------------------------ *)
+Definition range (n : nat) : list N := map N.of_nat (seq 0 n).
+Lemma in_range : forall n b, b < N.of_nat n -> In b (range n).
+Proof.
+  intros n b H. unfold range. replace b with (N.of_nat (N.to_nat b)) by apply N2Nat.id.
+  apply in_map. apply in_seq. lia.
+Qed.
+
+(* RFC 4880 5.2.3.21, first octet: 0x01 certify, 0x02 sign, 0x04 encrypt communications,
+   0x08 encrypt storage, 0x20 authentication; the names in the order the tool prints them *)
+Definition spec_usage (f : N) : bytes :=
+  join (bs ", ")
+    ((if N.testbit f 1 then [bs "sign"] else []) ++
+     (if N.testbit f 0 then [bs "certify"] else []) ++
+     (if N.testbit f 2 then [bs "encrypt communications"] else []) ++
+     (if N.testbit f 3 then [bs "encrypt storage"] else []) ++
+     (if N.testbit f 5 then [bs "authentication"] else [])).
+
+(* what parse_subpacket stores for a key-flags subpacket whose first octet is f *)
+Definition flags_of_octet (f : N) : N := N.lor 0 (N.land f known_flag_bits).
+
+Lemma usage_all_octets :
+  forallb (fun f => bytes_eqb (usage_string (flags_of_octet f)) (spec_usage f)) (range 256) = true.
+Proof. vm_compute. reflexivity. Qed.
+
+Theorem usage_exact : forall f, f < 256 -> usage_string (flags_of_octet f) = spec_usage f.
+Proof.
+  intros f Hf. apply bytes_eqb_eq.
+  pose proof usage_all_octets as A. rewrite forallb_forall in A. apply A. apply in_range. exact Hf.
+Qed.
+
+(* ------------------------------------------------------------------ *)
+(* C12_dates                                                           *)
+(* ------------------------------------------------------------------ *)
+Theorem dates_exact : forall s key_created,
+  describe_sig fixed s key_created =
+    [(bs "Usage", usage_string (sc_flags s));
+     (bs "Created", fmt_date_utc (sc_created s));
+     (bs "Expires", match sc_keylife s with
+                    | None => bs "never"
+                    | Some 0 => bs "never"
+                    | Some l => fmt_date_utc (key_created + l)
+                    end)].
+Proof.
+  intros. unfold describe_sig, expires_attr. do 3 f_equal. f_equal.
+  destruct (sc_keylife s) as [l|]; auto. simpl. destruct l; reflexivity.
+Qed.
+
+(* time.Duration(l) * time.Second does not overflow int64 for a 32-bit lifetime, and the
+   expiry stays far inside the range of time.Time *)
+Theorem lifetime_no_overflow : forall c l, c < 2 ^ 32 -> l < 2 ^ 32 ->
+  l * 1000000000 < 2 ^ 63 /\ c + l < 2 ^ 33.
+Proof. intros. split; lia. Qed.
+
+(* ------------------------------------------------------------------ *)
+(* T1: the regenerated tables are the RFC tables                       *)
+(* ------------------------------------------------------------------ *)
+Definition spec_algo_names : list (N * bytes) :=
+  [(1, bs "RSA"); (2, bs "RSA (encrypt only)"); (3, bs "RSA (sign only)"); (16, bs "ElGamal");
+   (17, bs "DSA"); (18, bs "ECDH"); (19, bs "ECDSA"); (22, bs "EdDSA")].
+Definition spec_oids : list (bytes * bytes) :=
+  [(bs "Ed25519", [43; 6; 1; 4; 1; 218; 71; 15; 1]);           (* 1.3.6.1.4.1.11591.15.1 *)
+   (bs "P-256", [42; 134; 72; 206; 61; 3; 1; 7]);               (* 1.2.840.10045.3.1.7 *)
+   (bs "P-384", [43; 129; 4; 0; 34]);                           (* 1.3.132.0.34 *)
+   (bs "P-521", [43; 129; 4; 0; 35]);                           (* 1.3.132.0.35 *)
+   (bs "X25519", [43; 6; 1; 4; 1; 151; 85; 1; 5; 1])].          (* 1.3.6.1.4.1.3029.1.5.1 *)
+
+Definition pair_list_eqb {A} (eqa : A -> A -> bool) (a b : list (A * bytes)) : bool :=
+  Nat.eqb (length a) (length b) &&
+  forallb (fun p => eqa (fst (fst p)) (fst (snd p)) && bytes_eqb (snd (fst p)) (snd (snd p))) (combine a b).
+
+Definition tables_ok : bool :=
+  pair_list_eqb N.eqb pgp_algo_names spec_algo_names &&
+  pair_list_eqb bytes_eqb pgp_oids spec_oids &&
+  forallb (fun h => mem_N h [1; 2; 3; 8; 9; 10; 11]) pgp_hash_ids && Nat.eqb (length pgp_hash_ids) 7 &&
+  forallb (fun a => mem_N a [1; 3; 17; 19; 22]) pgp_can_sign && Nat.eqb (length pgp_can_sign) 5 &&
+  (pgp_max_oid_len =? 10) &&
+  (pgp_flag_certify =? 1) && (pgp_flag_sign =? 2) && (pgp_flag_encrypt_communications =? 4) &&
+  (pgp_flag_encrypt_storage =? 8) && (pgp_flag_authentication =? 32) &&
+  (pgp_sigtype_generic_cert =? 16) && (pgp_sigtype_positive_cert =? 19) && (pgp_sigtype_subkey_binding =? 24) &&
+  (pgp_sigtype_primary_key_binding =? 25) && (pgp_sigtype_key_revocation =? 32) && (pgp_sigtype_subkey_revocation =? 40).
+
+Lemma tables_ok_now : tables_ok = true.
+Proof. vm_compute. reflexivity. Qed.
+
+(* every algorithm a parsed key can have is named *)
+Theorem algo_named : forall c ecok l k rest, parse_public_key c ecok l = Ok (k, rest) ->
+  In (pk_algo k, algo_name (pk_algo k)) spec_algo_names.
+Proof.
+  intros c ecok l k rest H. unfold parse_public_key in H.
+  destruct l as [|v [|t0 [|t1 [|t2 [|t3 [|algo r]]]]]]; try discriminate.
+  destruct (negb (v =? 4)); [discriminate|].
+  apply bind_ok in H. destruct H as [[m rest'] [E H]]. inversion H; subst. cbn [pk_algo].
+  unfold parse_keymat in E.
+  destruct (algo =? 1) eqn:E1; [apply N.eqb_eq in E1; subst; vm_compute; tauto|].
+  destruct (algo =? 2) eqn:E2; [apply N.eqb_eq in E2; subst; vm_compute; tauto|].
+  destruct (algo =? 3) eqn:E3; [apply N.eqb_eq in E3; subst; vm_compute; tauto|].
+  simpl in E.
+  destruct (algo =? 17) eqn:E17; [apply N.eqb_eq in E17; subst; vm_compute; tauto|].
+  destruct (algo =? 16) eqn:E16; [apply N.eqb_eq in E16; subst; vm_compute; tauto|].
+  destruct (algo =? 19) eqn:E19; [apply N.eqb_eq in E19; subst; vm_compute; tauto|].
+  destruct (algo =? 18) eqn:E18; [apply N.eqb_eq in E18; subst; vm_compute; tauto|].
+  destruct (algo =? 22) eqn:E22; [apply N.eqb_eq in E22; subst; vm_compute; tauto|].
+  discriminate.
+Qed.
+
+(* ------------------------------------------------------------------ *)
+(* the unrepaired code refutes the property: witnesses                 *)
+(* ------------------------------------------------------------------ *)
+Definition no_ec (_ _ : bytes) : result bool := Ok true.
+
+(* F7: EdDSA key with an empty point: 04 00000001 16 09 <oid> 0000 *)
+Definition f7_body : bytes := [4; 0; 0; 0; 1; 22; 9; 43; 6; 1; 4; 1; 218; 71; 15; 1; 0; 0].
+Lemma f7_legacy_panics : is_panic (parse_public_key legacy no_ec f7_body) = true.
+Proof. vm_compute. reflexivity. Qed.
+Lemma f7_fixed_rejects : parse_public_key fixed no_ec f7_body = Err "unsupported point length".
+Proof. vm_compute. reflexivity. Qed.
+
+(* F28: lifetime 0 *)
+Definition f28_sig : sigcore := mksig 19 22 8 [] [0; 0] [] 1000000000 (Some 0) None true 3.
+Lemma f28_legacy : describe_sig legacy f28_sig 1000000000 =
+  [(bs "Usage", bs "sign, certify"); (bs "Created", bs "2001-09-09"); (bs "Expires", bs "2001-09-09")].
+Proof. vm_compute. reflexivity. Qed.
+Lemma f28_fixed : describe_sig fixed f28_sig 1000000000 =
+  [(bs "Usage", bs "sign, certify"); (bs "Created", bs "2001-09-09"); (bs "Expires", bs "never")].
+Proof. vm_compute. reflexivity. Qed.
+
+(* F37: ECDH key with a 4-octet KDF field: the hashed form is not the input *)
+Definition f37_body : bytes :=
+  [4; 0; 0; 0; 1; 18; 10; 43; 6; 1; 4; 1; 151; 85; 1; 5; 1; 1; 7; 64] ++ repeat 7 32 ++ [4; 1; 8; 7; 170].
+Lemma f37_legacy : exists k, parse_public_key legacy no_ec f37_body = Ok (k, []) /\
+  key_hash_input k <> 153 :: be16 (lenN f37_body) ++ f37_body.
+Proof.
+  destruct (parse_public_key legacy no_ec f37_body) as [[k r]| |] eqn:E; try (vm_compute in E; discriminate).
+  vm_compute in E. inversion E; subst. eexists. split; [reflexivity|]. vm_compute. discriminate.
+Qed.
+
+(* a test vector for the SHA-1 that runs the model (FIPS 180-2, "abc") *)
+Lemma sha1_abc : hex_of false (sha1 (bs "abc")) = bs "a9993e364706816aba3e25717850c26c9cd0d89d".
+Proof. vm_compute. reflexivity. Qed.
+
+(* ------------------------------------------------------------------ *)
+(* what is displayed                                                   *)
+(* ------------------------------------------------------------------ *)
+Theorem displayed_fingerprint : forall c ecok H body k, fixkdf c = true -> bytes_ok body = true ->
+  parse_public_key c ecok body = Ok (k, []) ->
+  let fp := H (153 :: be16 (lenN body) ++ body) in
+  In (bs "Fingerprint", hex_of true fp) (describe_key H k) /\
+  In (bs "Key ID", hex_of true (take 8 (drop 12 fp))) (describe_key H k) /\
+  In (bs "Algorithm", algo_name (pk_algo k)) (describe_key H k).
+Proof.
+  intros c ecok H body k Hc Hok P fp.
+  destruct (fingerprint_exact c ecok H body k Hc Hok P) as [_ E].
+  unfold describe_key. rewrite E. fold fp. unfold key_id_string_of_fp. simpl. intuition.
+Qed.
+
+(* the hypotheses of the theorems above are met by real input: an Ed25519 key body *)
+Definition ex_eddsa_body : bytes :=
+  [4; 95; 0; 0; 0; 22; 9; 43; 6; 1; 4; 1; 218; 71; 15; 1; 1; 7; 64] ++ repeat 9 32.
+Example ex_eddsa_parses :
+  bytes_ok ex_eddsa_body = true /\
+  exists k, parse_public_key fixed no_ec ex_eddsa_body = Ok (k, []) /\ pk_algo k = 22 /\ pk_created k = 1593835520.
+Proof. split; [vm_compute; reflexivity|]. eexists. split; [vm_compute; reflexivity|]. split; reflexivity. Qed.
+(* an RSA key whose modulus has 9 significant bits in 2 octets and a second one with a redundant leading zero octet *)
+Example ex_mpi_leading_zero :
+  mpi_read [0; 9; 1; 255; 77] = Ok (mkmpi 9 [1; 255], [77]) /\
+  mpi_read [0; 16; 0; 255; 77] = Ok (mkmpi 16 [0; 255], [77]) /\
+  mpi_write (mkmpi 16 [0; 255]) = [0; 16; 0; 255] /\
+  mpi_wellformed (mkmpi 9 [1; 255]) = true /\ mpi_wellformed (mkmpi 16 [0; 255]) = false.
+Proof. repeat split; vm_compute; reflexivity. Qed.
